@@ -218,6 +218,43 @@ func c17Scenarios(batch int) []Scenario {
 			x.Outcome = checkReader(e, "R", viol)
 			finalState(e, 2, 4, viol)
 		}})
+	// T6: Sync issued by another thread after Append has returned: everything appended before is
+	// visible to non-waiting reads right after Sync
+	out = append(out, Scenario{Name: "T6-sync-from-another-thread-after-append", Batch: batch, Preload: 2,
+		Build: func(e *Env) {
+			e.Thread("W", func() {
+				if err := e.St.Append(bg, e.C[3]); err == nil {
+					e.Note("appended", true)
+				}
+			})
+			e.Thread("S", func() {
+				if ok, _ := e.Get("appended").(bool); !ok {
+					e.Note("S", "not-yet")
+					return
+				}
+				ctx, cancel := context.WithTimeout(bg, time.Minute)
+				defer cancel()
+				if err := e.St.Sync(ctx); err != nil {
+					e.Note("S", "sync-error: "+err.Error())
+					return
+				}
+				_, gerr := e.St.Get(ctx, e.C[3].Hash())
+				hasAt := e.St.HasAt(ctx, 3)
+				var hh uint64
+				if h, err := e.St.Head(ctx); err == nil {
+					hh = h.Ht
+				}
+				e.Note("S", fmt.Sprintf("get=%v hasAt=%v head=%d height=%d", gerr == nil, hasAt, hh, e.St.Height()))
+			})
+		},
+		Check: func(e *Env, x *Exec, viol func(string, string, ...any)) {
+			sres, _ := e.Get("S").(string)
+			x.Outcome = sres
+			if sres != "not-yet" && sres != "get=true hasAt=true head=3 height=3" {
+				viol("synced-header-unreadable", "Append(c3) had returned, then Sync returned nil, but right after it: %s", sres)
+			}
+			finalState(e, 1, 3, viol)
+		}})
 	if thoroughTier {
 		out = append(out, Scenario{Name: "T4-three-writers-out-of-order", Batch: batch, Preload: 2,
 			Build: func(e *Env) {
@@ -236,5 +273,5 @@ func c17Scenarios(batch int) []Scenario {
 
 func TestC17(t *testing.T) {
 	runScheduleProperty(t, "C17", c17Scenarios, []int{1, 2, 64},
-		"stateless depth-first enumeration of every thread schedule with at most B preemptions of concurrent scenarios on the real store (instrumented copy): two writers (gap then fill) + a reader doing Head/Height/GetByHeight/Get rounds; append+Sync then read from another thread; tail-side DeleteRange racing with appends at the head; (thorough) three out-of-order writers + reader; batch sizes 1, 2, 64; per-execution oracle: Head and Height never decrease, Head's header retrievable by height and hash, synced headers readable, final state equals the sequential one and is gap-free; distinct = (scenario, batch, reader observation sequence)")
+		"stateless depth-first enumeration of every thread schedule with at most B preemptions of concurrent scenarios on the real store (instrumented copy): two writers (gap then fill) + a reader doing Head/Height/GetByHeight/Get rounds; append+Sync then read from another thread; Sync from another thread after Append returned, followed by non-waiting reads; tail-side DeleteRange racing with appends at the head; (thorough) three out-of-order writers + reader; batch sizes 1, 2, 64; per-execution oracle: Head and Height never decrease, Head's header retrievable by height and hash, synced headers readable, final state equals the sequential one and is gap-free; distinct = (scenario, batch, reader observation sequence)")
 }
